@@ -405,6 +405,14 @@ fn dispatch(cmd: &str, a: &[&str]) -> Result<Vec<String>, String> {
 }
 
 pub fn main() {
+    let argv: Vec<String> = std::env::args().collect();
+    if argv.len() > 1 && argv[1] == "bootstrap" {
+        // the real start-up configuration sequence in this process (argv, cwd and environment are the scenario)
+        crate::entry_point::set_default_values();
+        crate::entry_point::bootstrap();
+        for (k, v) in std::env::vars() { if k.starts_with("RWS_CONFIG") { println!("@@ENV {}={}", k, v); } }
+        return;
+    }
     let quiet = std::env::var("ORACLE_QUIET").is_ok();
     if quiet { panic::set_hook(Box::new(|_| {})); }
     let stdin = std::io::stdin();
